@@ -42,6 +42,9 @@ var (
 	vApplied int
 	vGMctx   *vGMCtx
 	vLagTag  string
+	// how the batch named by lastseen reached a lagging node: while the reader waited inside GetNext, or between two calls
+	vK0  int
+	vHow string
 	// handler-level run: GetNext blocks at the end of the scenario instead of cancelling
 	vHandlerRun bool
 	vNever      = make(chan struct{})
@@ -50,6 +53,9 @@ var (
 // vLagStep: the node may apply further batches at this point.
 func vLagStep() {
 	for vApplied < len(vBatches) && verifCase(2) == 1 {
+		if vApplied == vK0 {
+			vHow = ":applied-between-calls"
+		}
 		vApplied++
 	}
 }
@@ -76,6 +82,9 @@ func verifStub_osGetNext(o *outputstream.OutputStream, ctx context.Context, last
 	}
 	if vApplied < len(vBatches) {
 		// blocked until the next batch is applied
+		if vApplied == vK0 {
+			vHow = ":applied-while-reader-waits"
+		}
 		vApplied++
 		return vBatches[vApplied-1]
 	}
